@@ -111,13 +111,28 @@ func runLoadScenario(sc ldScenario) ldResult {
 		// then let the writers run to completion while it is parked, then continue with the base policy
 		// ("+atinstall": the loader has returned and its result is about to be installed)
 		s.Policy = sc.Policy
+		lateWaits := 0
 		s.Choose = func(parked []*verifkit.G, rnd *rand.Rand) *verifkit.G {
 			if rnd.Intn(10) == 0 {
 				return nil
 			}
 			inLoader := false
 			var ws, others []*verifkit.G
+			// one caller arrives late: it is CALLED only after a flight has reached the target window (a Get called after
+			// the waiters of a failed load were released must load afresh)
+			late := ""
+			if sc.Getters >= 3 {
+				late = "g" + strconv.Itoa(sc.Getters)
+			}
 			for _, g := range parked {
+				if g.At == target {
+					inLoader = true
+				}
+			}
+			for _, g := range parked {
+				if !inLoader && g.Name == late && g.At == "start" {
+					continue
+				}
 				if g.At == target {
 					inLoader = true
 					continue
@@ -133,6 +148,15 @@ func runLoadScenario(sc ldScenario) ldResult {
 					return others[rnd.Intn(len(others))]
 				}
 				return nil
+			}
+			if late != "" && len(ws) == 0 && lateWaits < 40 {
+				// before the late caller is called, let the callers that are running (released waiters) return
+				for _, g := range parked {
+					if g.Name == late && g.At == "start" && len(s.RunningNamedLocked()) > 0 {
+						lateWaits++
+						return verifkit.Wait
+					}
+				}
 			}
 			if len(ws) > 0 {
 				return ws[rnd.Intn(len(ws))]
